@@ -14,15 +14,47 @@ def literal_quad_map(repo: Repo, cls: ClassInfo) -> Optional[List[List[int]]]:
     init = cls.methods.get("__init__")
     if init is None:
         return None
+    arg = mapped_ctor_args(init)
+    if arg is None or len(arg) < 2:
+        return None
+    qexpr = arg[1]
+    if isinstance(qexpr, ast.Name):
+        defs = [n for n in walk_shallow(init.node) if isinstance(n, ast.Assign) and isinstance(n.targets[0], ast.Name) and n.targets[0].id == qexpr.id]
+        if len(defs) != 1:
+            return None
+        qexpr = defs[0].value
+    if not isinstance(qexpr, ast.List):
+        return None
+    try:
+        qm = ast.literal_eval(qexpr)
+    except Exception as err:  # noqa: BLE001
+        raise AnalysisError(f"{cls.qualname}: quad map handed to MappedSketch is not a literal") from err
+    if not all(isinstance(q, list) and all(isinstance(i, int) for i in q) for q in qm):
+        raise AnalysisError(f"{cls.qualname}: quad map is not a list of integer lists")
+    return qm
+
+
+def mapped_ctor_args(init: FuncInfo):
+    """Arguments of the call that reaches MappedSketch.__init__(positions, quads): the super().__init__(...) /
+    super(X, self).__init__(...) call with two positional arguments."""
     for n in walk_shallow(init.node):
-        if isinstance(n, ast.Assign) and isinstance(n.targets[0], ast.Name) and n.targets[0].id == "quad_map" and isinstance(n.value, ast.List):
-            try:
-                qm = ast.literal_eval(n.value)
-            except Exception as err:  # noqa: BLE001
-                raise AnalysisError(f"{cls.qualname}: quad_map is not a literal") from err
-            if not all(isinstance(q, list) and all(isinstance(i, int) for i in q) for q in qm):
-                raise AnalysisError(f"{cls.qualname}: quad_map is not a list of integer lists")
-            return qm
+        if isinstance(n, ast.Call) and isinstance(n.func, ast.Attribute) and n.func.attr == "__init__" and isinstance(n.func.value, ast.Call) and attr_chain(n.func.value.func) == "super" and len(n.args) == 2 and not n.keywords:
+            return n.args
+    return None
+
+
+def positions_literal_len(init: FuncInfo) -> Optional[int]:
+    arg = mapped_ctor_args(init)
+    if arg is None:
+        return None
+    pexpr = arg[0]
+    if isinstance(pexpr, ast.Name):
+        defs = [n for n in walk_shallow(init.node) if isinstance(n, ast.Assign) and isinstance(n.targets[0], ast.Name) and n.targets[0].id == pexpr.id]
+        if len(defs) != 1:
+            return None
+        pexpr = defs[0].value
+    if isinstance(pexpr, ast.List) and not any(isinstance(e, ast.Starred) for e in pexpr.elts):
+        return len(pexpr.elts)
     return None
 
 
